@@ -172,7 +172,24 @@ def run(ctx):
     if dec is not None:
         sizes = [canon(ctx.args(dec, bb)[1]) for bb, t in ctx.calls(dec) if callee_decl(t).endswith('chunks_exact')]
         skip = [canon(ctx.args(dec, bb)[1]) for bb, t in ctx.calls(dec) if callee_decl(t) == 'core::slice::<impl [T]>::get']
-        rep.check(sizes == ['32'] and skip == ['range(1,None)'], 'R-C19-4', 'R-C19-4/element-size', 'elements are 32 bytes, after a 1-byte degree tag', 'element size %s after %s' % (sizes, skip), ctx.where(dec))
+        good = sizes == ['32'] and skip == ['range(1,None)']
+        if not sizes:
+            # a hand-written cursor: the split points are the sizes (1 for the tag, 32 per element, 64 for an L/R pair)
+            def cval(t):
+                c = canon(t)
+                if c.isdigit():
+                    return int(c)
+                if t.tag == 'binop' and t[1] == 'Mul' and canon(t[2]).isdigit() and canon(t[3]).isdigit():
+                    return int(canon(t[2])) * int(canon(t[3]))
+                return None
+            pts = [cval(ctx.args(dec, bb)[1]) for bb, t in ctx.calls(dec) if callee_decl(t).split('::')[-1] in ('split_at', 'split_at_checked', 'split_first')]
+            for cbody in ctx.facts.closures_of(dec):
+                pts += [cval(ctx.args(cbody, bb)[1]) for bb, t in ctx.calls(cbody) if callee_decl(t).split('::')[-1] in ('split_at', 'split_at_checked')]
+            sizes = sorted({str(x) for x in pts})
+            tag_skipped = 1 in pts or 'range(1,None)' in skip
+            good = bool(pts) and None not in pts and 32 in pts and tag_skipped and set(pts) <= {1, 32, 64}
+            skip = ['split points']
+        rep.check(good, 'R-C19-4', 'R-C19-4/element-size', 'elements are 32 bytes, after a 1-byte degree tag', 'element size %s after %s' % (sizes, skip), ctx.where(dec))
 
     # ---- R-C19-5 challenge reduction
     cb = ctx.facts.callers_decl.get('merlin::Transcript::challenge_bytes', [])
